@@ -1,0 +1,7 @@
+//go:build !verif
+
+package ocimem
+
+// verifYield marks a point between two critical sections. It does
+// nothing unless the package is built with the "verif" tag.
+func verifYield(point string) {}
